@@ -338,6 +338,13 @@ def case_split_array(c):
 
     H, W = c['H'], c['W']
     data = (np.arange(H * W).reshape(H, W) + 1000 * (c['seed'] + 1)).astype(float)
+    if c.get('dtype') == 'int64big':
+        # integers that a float64 cannot hold: "the same elements" has to survive whatever copies are made
+        data = (np.arange(H * W, dtype=np.int64).reshape(H, W) * 3 + (1 << 60) + 1 + c['seed'])
+    elif c.get('dtype') == 'complex':
+        data = data + 1j * (data[::-1, ::-1] + 0.5)
+    elif c.get('dtype') == 'float32':
+        data = (data + 0.25).astype(np.float32)
     nontriv, outcomes = [], set()
     nrun = 0
     cnt = {'partition_checks': 0, 'ragged_results': 0, 'invalid_shift_runs': 0}
@@ -423,6 +430,9 @@ def case_split_array(c):
 def run(ctx):
     thorough = ctx.tier == 'thorough'
     arr = [dict(H=H, W=W, seed=ctx.seed) for H in range(1, 7) for W in range(1, 7)]
+    arr += [dict(H=H, W=W, seed=ctx.seed, dtype=dt) for (H, W) in (((3, 4), (4, 3), (2, 5)) if not thorough else
+                                                                 [(H, W) for H in range(1, 6) for W in range(1, 6)])
+            for dt in ('int64big', 'complex', 'float32')]
     arr.sort(key=lambda c: c['H'] * c['W'])
     ctx.pmap(case_split_array, arr, chunk=1)
     cases = []
